@@ -252,7 +252,7 @@ func (g *gen) fill(m protoreflect.Message, depth int) {
 			// DomainResource.contained
 			if depth == 0 && fd.IsList() && !g.noContained && g.variant%3 == 1 { // variants 1, 4, 7, ... carry contained resources
 				lst := m.Mutable(fd).List()
-				for _, rt := range []string{"Observation", "Patient"}[:1+(g.variant/3)%2] {
+				for _, rt := range []string{"Observation", "Patient"}[:2-(g.variant/3)%2] {
 					cr := &bcrpb.ContainedResource{}
 					sub := &gen{variant: g.variant + 1, maxDepth: 1, noContained: true}
 					rf := resourceField(rt)
